@@ -19,8 +19,8 @@ META = {
     'functions': ['HandHistory.to_acpc_protocol', 'HandHistory.to_pluribus_protocol', 'HandHistory.from_acpc_protocol',
                   'ACPCProtocolParser._parse', 'HandHistory.from_game_state', 'notation.parse_action'],
     'assumptions': ['chips and cards concrete (text pipeline stays concrete); deck order stub; cash-game mode as the parser uses'],
-    'bounds': {'quick': 'NT and FT, n=2 and 3, first 3-4 decisions symbolic then check/call-down, every viewer seat',
-               'thorough': 'n=4..6, 5 symbolic decisions'},
+    'bounds': {'quick': 'NT and FT, n=2 and 3 with the first 3-4 decisions symbolic, n=4..6 with the first 2-3, then check/call-down; every viewer seat',
+               'thorough': 'n=2..6, 4-7 symbolic decisions'},
     'outside': 'decision sequences beyond the symbolic depth; unequal starting stacks (outside the property)',
 }
 
@@ -185,8 +185,14 @@ def jobs(tier: str, seed: int) -> list[dict]:
                     params=dict(code='NT', n=2, depth=2, split_flop=True), budget_s=B, must_cover=['acpc', 'pluribus']))
     out.append(dict(name='NT/n2/d5/short', fn='h_protocol', traced=False,
                     params=dict(code='NT', n=2, depth=5, stack=20), budget_s=B, must_cover=['acpc', 'pluribus']))
+    # 4-6 players (the quantifier's upper end): fewer symbolic decisions, then check/call-down
+    for code, n, depth in (('NT', 4, 3), ('NT', 6, 2), ('FT', 5, 2)):
+        out.append(dict(name=f'{code}/n{n}/d{depth}', fn='h_protocol', traced=False,
+                        params=dict(code=code, n=n, depth=depth), budget_s=3 * B,
+                        must_cover=['acpc'] + (['pluribus'] if code == 'NT' else [])))
     if tier == 'thorough':
-        for n in (4, 6):
-            out.append(dict(name=f'NT/n{n}/d4', fn='h_protocol', traced=False,
-                            params=dict(code='NT', n=n, depth=4), budget_s=B, must_cover=['acpc', 'pluribus']))
+        for code, n, depth in (('NT', 4, 5), ('NT', 6, 4), ('NT', 5, 4), ('FT', 4, 5), ('FT', 6, 4), ('NT', 3, 6), ('NT', 2, 7)):
+            out.append(dict(name=f'{code}/n{n}/d{depth}', fn='h_protocol', traced=False,
+                            params=dict(code=code, n=n, depth=depth), budget_s=B,
+                            must_cover=['acpc'] + (['pluribus'] if code == 'NT' else [])))
     return out
